@@ -179,7 +179,10 @@ class Intervals:
     def invalidate(self, env, local):
         def hits(kk):
             return kk is not None and ((kk[0] == "l" and kk[1] == local) or (kk[0] == "p" and re.match(r"^%d(\D|$)" % local, kk[1]) is not None))
+        env.pop(("d", local), None)
         for k in list(env):
+            if k[0] == "d":
+                continue
             if k[0] == "e":
                 op, a, b = env[k]
                 if hits(k[1]) or hits(a) or hits(b):
@@ -221,6 +224,8 @@ class Intervals:
             sp = rv["x"].get("copy") or rv["x"].get("move") if isinstance(rv["x"], dict) else None
             if sp is not None and not sp["p"] and not p["p"] and sp["l"] != p["l"]:
                 # a whole local copied / moved: what is known about its fields and variant payloads goes with it
+                if ("d", sp["l"]) in env:
+                    env[("d", p["l"])] = env[("d", sp["l"])]
                 for kk in list(env):
                     if kk[0] == "l" and len(kk) == 3 and kk[1] == sp["l"]:
                         env[("l", p["l"], kk[2])] = env[kk]
@@ -228,6 +233,8 @@ class Intervals:
                         env[("p", "%d%s" % (p["l"], kk[1][len(str(sp["l"])):]))] = env[kk]
             if sk is not None and sk[0] != "c" and "copy" in rv["x"]:
                 env[("a", k)] = sk
+            elif sk is not None and sk[0] != "c" and ("a", sk) in env and "move" in rv["x"]:
+                env[("a", k)] = env[("a", sk)]          # a moved copy is still a copy of the original (`f(len)` passes `move tmp` where tmp = copy len)
             if sk is not None and sk[0] != "c":
                 if sk in self.relf:
                     self.relf[k] = self.relf[sk]
@@ -308,6 +315,8 @@ class Intervals:
             if pt in self.assume_discr:
                 v = self.assume_discr[pt]
                 iv = (v, v)
+            elif not rv["place"]["p"] and ("d", rv["place"]["l"]) in env:
+                iv = env[("d", rv["place"]["l"])]
             else:
                 iv = ty_range(dst_ty or "") or (0, 2 ** 63)
                 en = self.mir.enums.get((rv.get("of") or "").split("<")[0])
@@ -326,6 +335,10 @@ class Intervals:
                         # payload of an enum variant, as read back through `(x as Variant).i`
                         env[("p", "%d@%d.%d" % (p["l"], rv["variant"], i))] = v
             if rv.get("agg") == "adt" and rv.get("variant") is not None and not p["p"]:
+                en0 = self.mir.enums.get(rv.get("adt") or "")
+                dv = next((int(w["discr"]) for w in (en0 or {}).get("variants", []) if w["idx"] == rv["variant"]), None)
+                if dv is not None and dv < 2 ** 63:
+                    env[("d", p["l"])] = (dv, dv)          # discriminant of a value built as this variant
                 # the payloads of the other variants do not exist in this value: the empty interval (neutral at joins), so that
                 # `if c { E::A(1) } else { E::B(2) }` keeps what is known about either payload
                 en = self.mir.enums.get(rv.get("adt") or "")
@@ -752,3 +765,63 @@ def make_table_summary(table, self_key="1.*"):
         vals = list(table.values())
         return (min(vals), max(vals))
     return f
+
+
+def per_path_values(body, mir, target_bb, operand, limit=3000, **kw):
+    """path-sensitive value of `operand` at the exit of block target_bb: the interval analysis is run once per acyclic path
+    from the entry to target_bb on a copy of the body in which every branch off the path leads to an `unreachable` block, so
+    that what a path establishes (a guard, the variant a helper's result was built as) is not lost at joins.  Returns the
+    hull over the paths on which target_bb is reachable, or None when no path is / the path count exceeds the limit."""
+    from mirq import Body
+    succs = body.succs()
+    paths = []
+
+    def go(bb, path):
+        if len(paths) > limit:
+            return
+        if bb == target_bb:
+            paths.append(path + [bb])
+            return
+        for s2 in sorted(set(succs[bb])):
+            if s2 in path or s2 == bb:
+                continue
+            go(s2, path + [bb])
+    import sys
+    old = sys.getrecursionlimit()
+    sys.setrecursionlimit(max(old, 10000))
+    try:
+        go(0, [])
+    finally:
+        sys.setrecursionlimit(old)
+    if not paths or len(paths) > limit:
+        return None
+    out = None
+    seen = set()
+    for path in paths:
+        key = tuple(path)
+        if key in seen:
+            continue
+        seen.add(key)
+        nxt = {a: b2 for a, b2 in zip(path, path[1:])}
+        blocks = []
+        dead = len(body.raw["blocks"])
+        for i, bl in enumerate(body.raw["blocks"]):
+            t = bl["term"]
+            if i in nxt and t and t["k"] == "switch":
+                keep = nxt[i]
+                t = dict(t, targets=[[v, (tb if tb == keep else dead)] for v, tb in t["targets"]], otherwise=(t["otherwise"] if t["otherwise"] == keep else dead))
+                bl = dict(bl, term=t)
+            blocks.append(bl)
+        blocks.append({"stmts": [], "term": {"k": "unreachable"}, "cleanup": False})
+        pb = Body(body.name + "#path", dict(body.raw, blocks=blocks), mir)
+        try:
+            an = Intervals(pb, mir, **kw)
+        except Exception:
+            return None
+        if target_bb not in an.reachable():
+            continue
+        v = an.value_at_exit(target_bb, operand)
+        if v is None:
+            return None
+        out = v if out is None else hull(out, v)
+    return out
